@@ -1,8 +1,182 @@
-(* C15 - nsqlookupd survives arbitrary input.  Property theorems only. *)
-From Coq Require Import List ZArith NArith.
-From NSQV Require Import model.Judge model.Names model.Lookupd model.LookupProto.
+(* C15 - nsqlookupd survives arbitrary input.  Property theorems only.
+
+   [exec_conn decode s p input] (model/LookupProto.v): the byte stream [input], followed
+   by EOF, arrives on TCP connection p of a daemon whose registry is s; [decode] is the
+   JSON decoder of the IDENTIFY body (an arbitrary function: encoding/json is trusted, not
+   modelled).  The outcome is [Panic] (a panic in a connection goroutine has no recover
+   and kills the process) or [Done s' frames].  [http_exec s m path q] is one HTTP request. *)
+From Coq Require Import List ZArith NArith Bool String.
+From NSQV Require Import gen.LookupdTables model.Judge model.Names model.Lookupd model.LookupSpec model.LookupProto
+  proofs.LookupdBase proofs.LookupdRefine proofs.LookupdShape proofs.LookupProtoProofs.
 Import ListNotations.
 
-Example C15_stub : exec_conn (fun _ => BadJSON) init 0%N [] = Done init [].
-Proof. reflexivity. Qed.
-Print Assumptions C15_stub.
+(* ---- no byte sequence on the TCP port crashes the daemon *)
+Theorem C15_no_panic : forall decode s p input, exec_conn decode s p input <> Panic.
+Proof. exact no_panic. Qed.
+Print Assumptions C15_no_panic.
+
+(* ... and it is the `bodyLen <= 0` refusal that makes this true: the same model without it
+   dies on the 13-byte witness of the defect repaired by commit 7d88f0e; the generated
+   handler summary shows the refusal in place, before make *)
+Theorem C15_guard_needed : exec_conn_g false (fun _ => BadJSON) init 1%N f2_witness = Panic.
+Proof. exact unguarded_panics. Qed.
+Print Assumptions C15_guard_needed.
+
+Theorem C15_guard_in_source : exists pre post,
+  lookupd_IDENTIFY_summary = (pre ++ ["if bodyLen <= 0 => E_BAD_BODY"%string; "call make"%string] ++ post)%list
+  /\ ~ In "call make"%string pre.
+Proof. exact identify_guard_tied. Qed.
+Print Assumptions C15_guard_in_source.
+
+(* ---- the model's tables are the source's tables *)
+Theorem C15_tables :
+  map (fun e => (fst (fst e), snd (fst e), handler_name (snd e))) routes = lookupd_routes /\
+  (exec_table = lookupd_exec /\ lookupd_exec_default = "E_INVALID"%string) /\
+  (map (fun e => dispatch (bytes_of_string (fst (fst e)))) lookupd_exec = [CmdPing; CmdIdentify; CmdRegister; CmdUnregister]
+   /\ map bytes_of_string lookupd_magics = [magic_v1]).
+Proof. exact (conj routes_tied (conj exec_table_tied dispatch_tied)). Qed.
+Print Assumptions C15_tables.
+
+Theorem C15_handler_summaries :
+  identify_summary = lookupd_IDENTIFY_summary /\
+  register_summary = lookupd_REGISTER_summary /\
+  unregister_summary = lookupd_UNREGISTER_summary /\
+  get_topic_chan_summary = lookupd_getTopicChan_summary /\
+  ioloop_exit_summary = lookupd_IOLoop_exit_summary /\
+  ioloop_read_summary = lookupd_IOLoop_read_summary /\
+  lookupd_PING_summary = [] /\
+  http_summaries = [lookupd_doCreateTopic_summary; lookupd_doDeleteTopic_summary; lookupd_doCreateChannel_summary;
+                    lookupd_doDeleteChannel_summary; lookupd_doTombstoneTopicProducer_summary;
+                    lookupd_doLookup_summary; lookupd_doChannels_summary] /\
+  filter_skip_cond = lookupd_filter_skip_cond /\
+  is_tombstoned_expr = lookupd_is_tombstoned_expr.
+Proof. exact summaries_tied. Qed.
+Print Assumptions C15_handler_summaries.
+
+(* ---- malformed commands get their code and are refused: the connection ends through the
+   exit path on the state the command found, nothing is registered *)
+Theorem C15_unknown_command : forall decode s p line rest w params,
+  split_sp (trim_space line) = w :: params -> dispatch w = CmdInvalid ->
+  exec_line true decode s p line rest = OneEnd (disconnect s p) (FErr E_INVALID).
+Proof. exact unknown_command_invalid. Qed.
+Print Assumptions C15_unknown_command.
+
+Theorem C15_no_params : forall decode s p line rest w,
+  split_sp (trim_space line) = [w] -> dispatch w = CmdRegister \/ dispatch w = CmdUnregister ->
+  exec_line true decode s p line rest = OneEnd (disconnect s p) (FErr E_INVALID).
+Proof. exact register_no_params_invalid. Qed.
+Print Assumptions C15_no_params.
+
+Theorem C15_before_identify : forall decode s p line rest w t more,
+  split_sp (trim_space line) = w :: t :: more -> dispatch w = CmdRegister \/ dispatch w = CmdUnregister ->
+  is_node s p = false ->
+  exec_line true decode s p line rest = OneEnd (disconnect s p) (FErr E_INVALID).
+Proof. exact register_before_identify_invalid. Qed.
+Print Assumptions C15_before_identify.
+
+Theorem C15_bad_topic : forall decode s p line rest w t more,
+  split_sp (trim_space line) = w :: t :: more -> dispatch w = CmdRegister \/ dispatch w = CmdUnregister ->
+  is_node s p = true -> is_valid_name t = false ->
+  exec_line true decode s p line rest = OneEnd (disconnect s p) (FErr E_BAD_TOPIC).
+Proof. exact register_bad_topic. Qed.
+Print Assumptions C15_bad_topic.
+
+Theorem C15_bad_channel : forall decode s p line rest w t c more,
+  split_sp (trim_space line) = w :: t :: c :: more -> dispatch w = CmdRegister \/ dispatch w = CmdUnregister ->
+  is_node s p = true -> is_valid_name t = true -> c <> [] -> is_valid_name c = false ->
+  exec_line true decode s p line rest = OneEnd (disconnect s p) (FErr E_BAD_CHANNEL).
+Proof. exact register_bad_channel. Qed.
+Print Assumptions C15_bad_channel.
+
+Theorem C15_identify_again : forall decode s p line rest w params,
+  split_sp (trim_space line) = w :: params -> dispatch w = CmdIdentify -> is_node s p = true ->
+  exec_line true decode s p line rest = OneEnd (disconnect s p) (FErr E_INVALID).
+Proof. exact identify_again_invalid. Qed.
+Print Assumptions C15_identify_again.
+
+(* nonsensical body sizes (missing size bytes, zero, negative, more than what follows),
+   undecodable JSON, missing fields *)
+Theorem C15_identify_bad_body : forall decode s p line rest w params,
+  split_sp (trim_space line) = w :: params -> dispatch w = CmdIdentify -> is_node s p = false ->
+  (List.length rest < 4)%nat
+  \/ (exists b0 b1 b2 b3 rest', rest = b0 :: b1 :: b2 :: b3 :: rest' /\
+        ((be_int32 b0 b1 b2 b3 <= 0)%Z
+         \/ (List.length rest' < Z.to_nat (be_int32 b0 b1 b2 b3))%nat
+         \/ decode (firstn (Z.to_nat (be_int32 b0 b1 b2 b3)) rest') = BadJSON
+         \/ exists i, decode (firstn (Z.to_nat (be_int32 b0 b1 b2 b3)) rest') = Json i /\ fields_missing i = true)) ->
+  exec_line true decode s p line rest = OneEnd (disconnect s p) (FErr E_BAD_BODY).
+Proof. exact identify_bad_body. Qed.
+Print Assumptions C15_identify_bad_body.
+
+Theorem C15_wrong_magic : forall decode s p m0 m1 m2 m3 rest,
+  bytes_eqb [m0; m1; m2; m3] magic_v1 = false ->
+  exec_conn decode s p (m0 :: m1 :: m2 :: m3 :: rest) = Done s [FBadProtocol].
+Proof. exact wrong_magic. Qed.
+Print Assumptions C15_wrong_magic.
+
+Theorem C15_errors_are_final : forall decode s p input s' fs,
+  exec_conn decode s p input = Done s' fs ->
+  forallb (fun f => negb (is_err_frame f)) (removelast fs) = true.
+Proof. exact errors_are_final. Qed.
+Print Assumptions C15_errors_are_final.
+
+(* ---- no byte sequence changes registrations that belong to another connection *)
+Theorem C15_conn_is_own_ops : forall decode s p input s' fs,
+  exec_conn decode s p input = Done s' fs ->
+  exists ops, forallb (op_on p) ops = true /\ s' = run s ops.
+Proof. exact conn_is_ops. Qed.
+Print Assumptions C15_conn_is_own_ops.
+
+Theorem C15_isolation : forall decode s p input s' fs q,
+  wf s -> q <> p -> exec_conn decode s p input = Done s' fs ->
+  same_for q (abs s') (abs s) /\ wf s'.
+Proof. exact isolation. Qed.
+Print Assumptions C15_isolation.
+
+Theorem C15_isolation_lookup : forall decode s p input s' fs q inactive lifetime t,
+  wf s -> q <> p -> exec_conn decode s p input = Done s' fs ->
+  lookup_producer inactive lifetime (abs s') t q = lookup_producer inactive lifetime (abs s) t q.
+Proof. exact isolation_lookup. Qed.
+Print Assumptions C15_isolation_lookup.
+
+(* ---- HTTP: a request that is not answered 200 by a handler changes nothing *)
+Theorem C15_http_4xx : forall s m path q s' n,
+  http_exec s m path q = (s', SCode n) -> (400 <= n < 500)%N -> s' = s.
+Proof. exact http_4xx_changes_nothing. Qed.
+Print Assumptions C15_http_4xx.
+
+Theorem C15_http_not_200 : forall s m path q s' st,
+  http_exec s m path q = (s', st) -> st <> SCode 200 -> s' = s.
+Proof. exact http_not_200_changes_nothing. Qed.
+Print Assumptions C15_http_not_200.
+
+Theorem C15_http_readonly : forall s m path q s' st,
+  http_exec s m path q = (s', st) -> s' <> s ->
+  m = "POST"%string /\ In path ["/topic/create"; "/topic/delete"; "/channel/create"; "/channel/delete"; "/topic/tombstone"]%string.
+Proof. exact http_readonly. Qed.
+Print Assumptions C15_http_readonly.
+
+(* ---- non-vacuity: concrete streams *)
+Definition s_by : state :=
+  run init [Identify 0%N (mkInfo [98]%N 4150%Z 4151%Z [49]%N); Register 0%N [98; 121]%N [99]%N].
+Definition good_body : bytes := [123; 125]%N.
+Definition dec (b : bytes) : jres :=
+  if bytes_eqb b good_body then Json (mkInfo [104]%N 1%Z 2%Z [118]%N) else BadJSON.
+Definition ident_ok : bytes := (w_IDENTIFY ++ [10; 0; 0; 0; 2]%N ++ good_body)%list.
+Definition line (s : string) : bytes := (bytes_of_string s ++ [10]%N)%list.
+
+Example C15_witness :
+  wf s_by /\
+  (* the F2 witness now gets E_BAD_BODY and the daemon lives *)
+  exec_conn dec s_by 1%N f2_witness = Done s_by [FErr E_BAD_BODY] /\
+  (* a hostile producer that identifies, registers on the bystander's topic, then sends an
+     invalid name: refused, and everything it registered is gone *)
+  exec_conn dec s_by 1%N (magic_v1 ++ ident_ok ++ line "REGISTER by c" ++ line "UNREGISTER by" ++ line "REGISTER by" ++ line "REGISTER bad$ c")%list
+    = Done s_by [FIdentified; FOk; FOk; FOk; FErr E_BAD_TOPIC] /\
+  (* white space handling of strings.TrimSpace, a command before IDENTIFY *)
+  exec_conn dec s_by 1%N (magic_v1 ++ [194; 160; 9]%N ++ line "PING  " ++ line "REGISTER t")%list
+    = Done s_by [FOk; FErr E_INVALID] /\
+  http_exec s_by "POST" "/topic/delete" (QArgs None None None) = (s_by, SCode 400) /\
+  http_exec s_by "GET" "/topic/delete" (QArgs (Some [98; 121]%N) None None) = (s_by, SCode 405) /\
+  fst (http_exec s_by "POST" "/topic/delete" (QArgs (Some [98; 121]%N) None None)) <> s_by.
+Proof. split; [apply wf_run, wf_init|]. vm_compute. repeat split; try reflexivity. discriminate. Qed.
